@@ -6,7 +6,7 @@ SPEC = dict(
     rule='Bounded-exhaustive enumeration of constructed signatures. A case is one signature: (f2) product of chain algorithm x document '
          'algorithm x aggregation time around the SHA-1 cut-off x tail form (none / calendar / +publication / +authentication record) x RFC3161 '
          'record x 1..3 chains; (f1) every link mix (direction x sibling kind {imprint, legacy id, metadata padded / unpadded} x level correction) '
-         'for every chain-shape in the bound; (single) every catalogue mutation (34 semantic mutations, downstream hashes recomputed so that only the '
+         'for every chain-shape in the bound; (single) every catalogue mutation (63 semantic mutations, downstream hashes recomputed so that only the '
          'intended condition breaks) on every base of a 48-element base family; (pair) every pair of catalogue mutations; (byte) every offset x '
          '{^01,^80,=00,=ff} of serialized bases, re-read by the strict reference parser. The oracle is the reference evaluator of INT-01..INT-17 '
          '(harness/ref/ref_sig.c) applied to the same signature. Distinct = distinct case name; non-trivial = the library verdict was compared '
@@ -14,13 +14,13 @@ SPEC = dict(
          'Further: every verdict is repeated with admissible input levels and in a long-lived verification context; RFC3161 algorithm ids beyond 32 bits; part builder (KSI_SignatureBuilder closed again after a refused close with changed components). '
          'RFC3161 record index with one element more / less than the first chain\'s. '
          'Calendar chain without aggregation time element whose links have the shape of the previous second. '
-         'Builder scenarios with a root level (the level added to the first link breaks / completes the chain); the padding element coded with the long header (as carried, and hashed as if short).',
+         'Builder scenarios with a root level (the level added to the first link breaks / completes the chain); the padding element coded with the long header (as carried, and hashed as if short). A middle value of a later chain\'s index changed.',
     bounds=dict(
-        quick='f2: 1440 bases; f1: chain shapes {1},{2},{1,1},{2,1},{1,2} links with 16 descriptors per link; single: 48 bases x 34 mutations; pairs: 8 bases x 561 pairs; byte: 2 bases x every offset x 4 operators',
+        quick='f2: 1440 bases; f1: chain shapes {1},{2},{1,1},{2,1},{1,2} links with 16 descriptors per link; single: 48 bases x 63 mutations; pairs: 8 bases x all pairs; byte: 2 bases x every offset x 4 operators',
         thorough='f1: shapes up to {2,2} and {1,1,1} with 24 descriptors per link; pairs on all 48 bases; byte mutations on 7 bases'),
     technique='bounded-exhaustive construction + mutation enumeration on the compiled code, verdict compared with an independent reference evaluator of the KSI consistency conditions',
     level_text='Every signature of a stated finite family (all link mixes up to a shape bound, all tails, every single and pairwise semantic mutation, every single-byte substitution of selected bases) is run through the real parser and internal policy and the verdict (return code, result code, error code) is compared with an independent reference evaluator. The property is an input/output equivalence ("OK exactly when consistent"), which a complete enumeration around each condition decides within the bound; nothing is sampled.',
-    level_note='Trusted: OpenSSL digests, the reference model in harness/ref/ref_sig.c (transcribed from the KSI format and the documented INT codes), sanitizers. INT-16 cannot be produced positively (no parseable algorithm is obsolete); hashed-metadata TLVs are always in shortest header form.',
+    level_note='Trusted: OpenSSL digests, the reference model in harness/ref/ref_sig.c (transcribed from the KSI format and the documented INT codes), sanitizers. INT-16 cannot be produced positively (no parseable algorithm is obsolete); Metadata with long TLV headers is judged as carried.',
     require_outcomes=['consistent:OK', 'single:INT-01:FAIL', 'single:INT-02:FAIL', 'single:INT-03:FAIL', 'single:INT-04:FAIL', 'single:INT-05:FAIL',
                       'single:INT-06:FAIL', 'single:INT-07:FAIL', 'single:INT-08:FAIL', 'single:INT-09:FAIL', 'single:INT-10:FAIL', 'single:INT-11:FAIL',
                       'single:INT-12:FAIL', 'single:INT-13:FAIL', 'single:INT-14:FAIL', 'single:INT-15:FAIL', 'single:INT-17:FAIL', 'multi:not-ok', 'byte:judged'],
